@@ -18,7 +18,7 @@ def A(name, op, l, tiers, **kw):
 P = ("quick", "thorough")
 OPS = [("init", "OP_INIT"), ("push", "OP_PUSH"), ("pop", "OP_POP"), ("push_at", "OP_PUSH_AT"), ("pop_at", "OP_POP_AT"), ("getset", "OP_GETSET"), ("rem", "OP_REM"),
        ("rem_absent", "OP_REM_ABSENT"), ("mem", "OP_MEM"), ("concat", "OP_CONCAT"), ("resize", "OP_RESIZE"), ("sort", "OP_SORT"), ("iter", "OP_ITER"),
-       ("assign", "OP_ASSIGN"), ("del", "OP_DEL"), ("bad_index", "OP_BAD_INDEX"), ("pop_empty", "OP_POP_EMPTY")]
+       ("assign", "OP_ASSIGN"), ("del", "OP_DEL"), ("mark", "OP_MARK"), ("bad_index", "OP_BAD_INDEX"), ("pop_empty", "OP_POP_EMPTY")]
 def AN(name, op, l, nlen, spare, tiers, **kw):
     o = A(name, op, l, tiers, **kw)
     o.name = "array.%s.n%d%s" % (name, nlen, "+%d" % spare if spare else "")
